@@ -1958,6 +1958,15 @@ def _parse_qs(eng, st, args, kwargs, line):
     yield st, V(ty, (dom, mp))
 
 
+@lib('urllib.parse.unquote')
+def _unquote(eng, st, args, kwargs, line):
+    """unquote(s): some function of s (percent-decoding; nothing more is assumed - in particular
+    not that it agrees with parse_qs, which also maps '+' to a blank)."""
+    if len(args) != 1 or kwargs or args[0].ty.kind != 'str':
+        raise core.EngineError('urllib.parse.unquote call form at line %d' % line)
+    yield st, vstr(z3.Function('url_unquote', S, S)(args[0].t))
+
+
 @lib('time.time')
 def _time(eng, st, args, kwargs, line):
     now = st.ghost.get('now')
